@@ -648,7 +648,7 @@ impl Interaction {
                 // Mask is 1s along the lower n+1 bits.
                 let mask = !(std::usize::MAX << (self.n << 1));
                 // Check that each index up to n is equal to its bit-flip counterpart (up to 2n).
-                (0..1usize << self.n).all(|indx| {
+                (0..1usize << (self.n << 1)).all(|indx| {
                     (self.mat[indx] - self.mat[(!indx) & mask]).abs() < std::f64::EPSILON
                 })
             }
@@ -656,7 +656,7 @@ impl Interaction {
                 // Mask is 1s along the lower n bits.
                 let mask = !(std::usize::MAX << self.n);
                 // Check that each index up to n is equal to its bit-flip counterpart (up to 2n).
-                (0..1usize << (self.n >> 1)).all(|indx| {
+                (0..1usize << self.n).all(|indx| {
                     (self.mat[indx] - self.mat[(!indx) & mask]).abs() < std::f64::EPSILON
                 })
             }
